@@ -579,15 +579,33 @@ def c16(tier):
         has_msg = all(bool(x.get("msg")) for x in r.get("items", []) if x["kind"] == "compile_error")
         events.append({"ev": "total", "class": r.get("class"), "det": bool(r.get("det", False)), "has_message": has_msg})
         idx.append(i)
+    # inputs inside the descriptor language: the full prediction (whole-derivation vs per-entry failure) applies as well
+    oev, ometa = own_events(ck, tier, rnd)
+    iev, imeta = own_impl_events(tier, rnd)
+    oev, ometa = oev + iev, ometa + imeta
+    n_total = len(events)
+    events = events + oev
     n, bad, jst = dx.tlc_judge("Trace_Exp", "Trace_Exp.cfg", events, "c16", chunk=max(1000, -(-len(events) // 12)))
     ck.add_judge(n, jst)
-    for b in bad:
+    ck.notes["own_error_events"] = len(oev)
+    for b in [x for x in bad if x >= n_total]:
+        e, q = oev[b - n_total], ometa[b - n_total]
+        if e["ev"] == "ownimpl":
+            ck.violation({"kind": "own_impl", "ikind": e["I"]["ikind"], "args": "+".join(e["I"]["args"]), "output": e["I"]["output"], "nimpl": e["nimpl"], "nerr": e["nerr"]},
+                         {"what": "impl item: refusal / number of generated impls differs from DxExpand", "request": q, "event": e})
+            continue
+        P = e["P"]
+        sig = {"kind": "own_error", "item": P["kind"], "anomaly": (P["anomalies"] or [{}])[0].get("h", "") + ":" + (P["anomalies"] or [{}])[0].get("what", ""),
+               "syntax_ok": P["syntax_ok"], "nimpl": min(e["nimpl"], 1), "entry": e["entry"]}
+        ck.violation(sig, {"what": "whole-derivation / per-entry failure differs from DxExpand", "request": q, "event": e})
+    for b in [x for x in bad if x < n_total]:
         r, q = resps[idx[b]], ereq[idx[b]]
         sig = {"kind": r.get("class"), "det": r.get("det"), "panic": (r.get("panic") or "")[:80], "entry": q["entry"]}
         ck.violation(sig, {"what": "expansion panicked / produced unparsable output / differs between two runs", "request": q, "response": {k: v for k, v in r.items() if k != "items"}})
     classes = {}
     for e in events:
-        classes[e["class"]] = classes.get(e["class"], 0) + 1
+        if e["ev"] == "total":
+            classes[e["class"]] = classes.get(e["class"], 0) + 1
     ck.notes["classes"] = classes
     ck.notes["corpus"] = len(corpus)
     ck.sample({"mutant": ereq[0], "class": resps[0].get("class")})
@@ -596,3 +614,152 @@ def c16(tier):
     ck.cov["distinct_nontrivial"] = len(set(r.get("out_hash") for r in resps if r.get("out_hash")))
     ck.cov["rule"] = "structure-aware mutants (delete / duplicate / swap / move / insert attributes, arguments, fields, variants, generics; splice between seeds; struct<->enum; other item kinds) of every derive_ex item in the test-suite, the documentation and generator output, through both entry points, each expanded twice; distinct = distinct expansion outputs"
     return ck.finish()
+
+
+# ------------------------------------------------------------------------------------------------
+# own errors (DxExpand): whole-derivation vs per-entry failure, for inputs inside the descriptor language
+# ------------------------------------------------------------------------------------------------
+def own_case(rnd):
+    r = rnd.random()
+    kind = "struct" if r < 0.45 else "enum" if r < 0.9 else "union" if r < 0.95 else "other"
+    traits = rnd.sample(ALL_TRAITS, rnd.choice([1, 1, 2, 3]))
+    if rnd.random() < 0.1:
+        traits.insert(rnd.randrange(len(traits) + 1), "Foo")
+    if kind == "enum" and rnd.random() < 0.6:
+        traits = [t for t in traits if t in ENUM_TRAITS or t == "Foo"] or ["Clone"]
+    syntax_ok = rnd.random() > 0.07
+    nfields = rnd.choice([0, 1, 1, 2, 3])
+    nvariants = rnd.choice([1, 2, 3]) if kind == "enum" else 1
+    nmarked = rnd.choice([0, 1, 1, 2]) if kind == "enum" else 0
+    nmarked = min(nmarked, nvariants)
+    ntransp = rnd.choice([0, 0, 1, 2]) if nfields >= 2 else rnd.choice([0, 1]) if nfields == 1 else 0
+    anomalies = []
+    if rnd.random() < 0.35 and kind in ("struct", "enum"):
+        h = rnd.choice(HELPER_NAMES + ["derive_ex"])
+        at = rnd.choice(["type", "field"] + (["variant"] if kind == "enum" else []))
+        if h == "derive_ex":
+            at = rnd.choice(["field"] + (["variant"] if kind == "enum" else []))
+            what = rnd.choice(["unknown_trait", "bad_arg"])
+        else:
+            what = rnd.choice(["twice", "name_value", "bad_arg"])
+        if at == "field" and nfields == 0:
+            at = "type" if h != "derive_ex" else None
+        if at:
+            anomalies.append({"h": h, "what": what, "at": at})
+    P = {"kind": kind, "syntax_ok": syntax_ok, "traits": traits, "nfields": nfields, "anomalies": anomalies, "ntransp": ntransp,
+         "nmarked": nmarked, "nvariants": nvariants}
+    # --- source
+    def anomaly_src(a):
+        h = a["h"]
+        if h == "derive_ex":
+            return "#[derive_ex(Foo)]" if a["what"] == "unknown_trait" else "#[derive_ex(Clone Debug)]"
+        ok = {"debug": "#[debug(bound())]", "default": "#[default(_, bound())]"}.get(h, "#[%s(bound())]" % h)
+        if a["what"] == "twice":
+            return ok + " " + ok
+        if a["what"] == "name_value":
+            return "#[%s = 1]" % h
+        return {"default": "#[default(1, 2)]", "debug": "#[debug(ignroe)]"}.get(h, "#[%s(nonsense)]" % h)
+    at = {"type": "", "variant": "", "field": ""}
+    for a in anomalies:
+        at[a["at"]] += anomaly_src(a) + " "
+
+    def fields(n, transp, anom):
+        fs = []
+        for j in range(n):
+            a = ("#[debug(transparent)] " if j < transp else "") + (anom if j == n - 1 else "")
+            fs.append("%sf%d: u8" % (a, j))
+        return "{ %s }" % ", ".join(fs)
+    if kind == "struct":
+        item = "%sstruct X %s" % (at["type"], fields(nfields, ntransp, at["field"]))
+    elif kind == "enum":
+        vs = []
+        for vi in range(nvariants):
+            mark = "#[default] " if vi < nmarked else ""
+            va = at["variant"] if vi == 0 else ""
+            if vi == 0:
+                vs.append("%s%sV0 %s" % (mark, va, fields(nfields, ntransp, at["field"]) if nfields else ""))
+            else:
+                vs.append("%sV%d" % (mark, vi))
+        item = "%senum X { %s }" % (at["type"], ", ".join(vs))
+    elif kind == "union":
+        item = "union X { a: u8, b: u16 }"
+    else:
+        item = rnd.choice(["fn x() {}", "trait X {}", "mod x {}", "type X = u8;", "static X: u8 = 0;"])
+    args = (", " if syntax_ok else " ").join(traits) if (syntax_ok or len(traits) > 1) else traits[0] + " +"
+    if not syntax_ok and len(traits) > 1:
+        args = " ".join(traits)
+    return P, args, item
+
+
+def own_impl_events(tier, rnd):
+    """impl items: which requests are refused, how many impls are generated"""
+    cases = []
+    ops = bf.BINOPS
+    for n in range(800 if tier == "quick" else 8000):
+        ikind = rnd.choice(["bin", "bin", "bin", "assign", "assign", "inherent", "negative", "non_op"])
+        op = rnd.choice(ops)
+        other = rnd.choice([o for o in ops if o != op])
+        args, src_args = [], []
+        for _ in range(rnd.choice([0, 1, 1, 2, 2, 3])):
+            a = rnd.choice(["bin", "bin", "assign", "assign", "other_op", "unknown"])
+            args.append(a)
+            src_args.append({"bin": op, "assign": op + "Assign", "other_op": rnd.choice([other, other + "Assign"]), "unknown": rnd.choice(["Clone", "Foo", "Neg"])}[a])
+        syntax_ok = rnd.random() > 0.05
+        output = rnd.random() > 0.15
+        sl, rr = rnd.choice(["", "&"]), rnd.choice(["", "&"])
+        if ikind == "bin":
+            item = "impl ::core::ops::%s<%sY> for %sX { %s fn f(self, r: %sY) -> X { todo!() } }" % (op, rr, sl, "type Output = X;" if output else "", rr)
+        elif ikind == "assign":
+            item = "impl ::core::ops::%sAssign<%sY> for X { fn f(&mut self, r: %sY) { } }" % (op, rr, rr)
+            output = True
+        elif ikind == "inherent":
+            item = "impl X { fn f(&self) {} }"
+        elif ikind == "negative":
+            item = "impl !::core::ops::%s<Y> for X {}" % op
+        else:
+            item = "impl ::core::clone::Clone for X { fn clone(&self) -> X { todo!() } }"
+        I = {"ikind": ikind, "args": args, "output": bool(output), "syntax_ok": syntax_ok}
+        cases.append((I, ", ".join(src_args) + ("" if syntax_ok else " +"), item))
+    reqs = []
+    for I, a, item in cases:
+        reqs.append({"k": "items", "id": 0, "src": item})
+        reqs.append({"k": "expand", "id": 1, "entry": "attr", "attr": a, "item": item})
+    rs = dx.expand(reqs)
+    events, meta = [], []
+    for k, (I, a, item) in enumerate(cases):
+        rin, r = rs[2 * k], rs[2 * k + 1]
+        items = r.get("items", [])
+        present = bool(items) and items[0]["kind"] == "impl"
+        events.append({"ev": "ownimpl", "I": I, "item_present": present, "item_equal": bool(present and rin["items"] and items[0]["hash"] == rin["items"][0]["hash"]),
+                       "nimpl": sum(1 for x in items[1:] if x["kind"] == "impl"), "nerr": sum(1 for x in items[1:] if x["kind"] == "compile_error")})
+        meta.append(reqs[2 * k + 1])
+    return events, meta
+
+
+def own_events(ck, tier, rnd):
+    N = 6000 if tier == "quick" else 60000
+    cases = [own_case(rnd) for _ in range(N)]
+    reqs = []
+    for P, args, item in cases:
+        reqs.append({"k": "expand", "id": len(reqs), "entry": "attr", "attr": args, "item": item})
+        if P["kind"] != "other":        # a derive macro can only sit on struct / enum / union
+            reqs.append({"k": "expand", "id": len(reqs), "entry": "derive", "attr": "", "item": "#[derive_ex(%s)] %s" % (args, item)})
+    resps = dx.expand(reqs)
+    events, meta = [], []
+    ri = 0
+    for P, args, item in cases:
+        for entry in (("attr", "derive") if P["kind"] != "other" else ("attr",)):
+            r = resps[ri]
+            q = reqs[ri]
+            ri += 1
+            items = r.get("items", [])
+            present = entry == "derive" or (bool(items) and items[0]["kind"] != "compile_error")
+            gen = items[1:] if entry == "attr" and present else items
+            nerr = sum(1 for x in gen if x["kind"] == "compile_error")
+            nimpl = sum(1 for x in gen if x["kind"] == "impl")
+            groups, ok = entry_groups(r, entry if present else "derive", P["traits"])
+            classes = [("error" if (g and g[0]["kind"] == "compile_error") else "impl" if g else "missing") for g in groups] if ok else ["unparsed"]
+            events.append({"ev": "own", "P": P, "entry": entry, "nimpl": nimpl, "nerr": nerr, "classes": classes, "item_present": bool(present),
+                           "class": r.get("class")})
+            meta.append(q)
+    return events, meta
